@@ -124,6 +124,24 @@ def families(tier, seed):
     return fams
 
 
+def _twin_asymmetric():
+    """mutant: intersection(HalfLine, Segment) (this argument order only) drops point results"""
+    import sys as _sys
+    it = _sys.modules['Geometry3D.calc.intersection']
+    orig = it.intersection
+
+    def f(a, b):
+        r = orig(a, b)
+        if isinstance(a, HalfLine) and isinstance(b, Segment) and isinstance(r, Point):
+            return None
+        return r
+    it.intersection = f
+    G.intersection = f
+
+
+TWINS = {'intersection(HalfLine, Segment) loses points': (r'^HalfLine-Segment/', _twin_asymmetric)}
+
+
 META = dict(
     title='intersection is total, symmetric and typed',
     level_text=('Bounded symbolic model checking of the real dispatch and handlers for all 49 ordered operand type pairs: operands from the C01-C03 '
